@@ -1,6 +1,6 @@
 (* Property C10 -- what is declared non-reloadable is never rewritten.  Statements only. *)
 From Coq Require Import List String NArith ZArith Bool.
-From AM Require Import Rust.Ast Gen.Entry Gen.Anycache Ref.Load Ref.Sys Proofs.SysGrows Proofs.SysStatic Proofs.SysGraph Tie.Static Gen.Flags Tie.Dirs Gen.CacheMap Gen.LocalMap Tie.Maps.
+From AM Require Import Rust.Ast Gen.Entry Gen.Anycache Ref.Load Ref.Sys Proofs.SysGrows Proofs.SysStatic Proofs.SysGraph Tie.Static Gen.Flags Tie.Dirs Gen.CacheMap Gen.LocalMap Tie.Maps Gen.HotReloading Tie.Answers.
 Import ListNotations.
 
 (* 1. The code: an entry is reloadable only if its type is hot-reloaded and the cache has a
@@ -68,3 +68,8 @@ Proof. exact reloader_is_fixed_at_construction. Qed.
 Theorem C10_code_clear_neither_makes_nor_drops_a_reloader :
   cache_clear_wf Gen.CacheMap.AssetCache_clear = true /\ cache_clear_wf Gen.LocalMap.LocalAssetCache_clear = true.
 Proof. exact (conj (proj1 (proj2 (proj2 clear_empties_the_whole_map))) (proj2 (proj2 (proj2 clear_empties_the_whole_map)))). Qed.
+
+(* ... and a cache gets a reloader at construction only if its source can be cloned for one and its
+   hot-reloading really started *)
+Theorem C10_code_reloader_only_when_hot_reloading_started : make_wf HotReloader_make = true.
+Proof. exact reloader_only_when_hot_reloading_started. Qed.
